@@ -28,6 +28,15 @@ def main():
     with Pool(14) as pool:
         res = pool.map(work, tasks)
     json.dump([r['tag'] for r in res], open(os.path.join(outdir, 'C10_INDEX.json'), 'w'))
+    # histories: decoders of DIFFERENT lattice classes of the same size used one after the other in one process
+    done = {(r['cls'], tuple(r['size'])) for r in res}
+    htasks = []
+    for a, b, decname in (('Toric3DCode', 'Planar3DCode', 'SweepDecoder3D'), ('RotatedPlanar3DCode', 'RotatedToric3DCode', 'RotatedSweepDecoder3D')):
+        for size in sorted({s for c, s in done if c == a} & {s for c, s in done if c == b}):
+            htasks += [((a, b, a), decname, size, seed), ((b, a, b), decname, size, seed)]
+    with Pool(14, maxtasksperchild=1) as pool:
+        hres = pool.map(history_work, htasks)
+    json.dump(hres, open(os.path.join(outdir, 'c10_hist.json'), 'w'))
     print(len(res), 'lattices', sum(len(r['traces']) for r in res), 'traces', sum(len(r['geom']) for r in res), 'edges')
 
 
@@ -103,6 +112,42 @@ def work(task):
                         rec['traces'].append({'z': zs, 'tiebreak_seed': tb, 'error': '%s: %s' % (type(ex).__name__, ex)})
             json.dump(rec, open(os.path.join(outdir, 'c10_%s.json' % tag), 'w'))
             return rec
+
+
+def history_work(task):
+    classes, decname, size, seed = task
+    import panqec.codes as pc
+    import panqec.decoders as pd_
+    from panqec.error_models import PauliErrorModel
+    Dec = getattr(pd_, decname)
+    out = {'history': list(classes), 'decoder': decname, 'size': list(size), 'steps': []}
+    for cls in classes:
+        code = getattr(pc, cls)(*size)
+        em = PauliErrorModel(0, 0, 1)
+        n, m = code.n, code.n_stabilizers
+        dec = Dec(code, em, 0.1)
+        geom = []
+        for q, loc in enumerate(code.qubit_coordinates):
+            signs = np.zeros(m, dtype='uint8')
+            try:
+                dec.flip_edge(loc, signs)
+                geom.append([q, [int(i) for i in np.nonzero(signs)[0]], [int(v) for v in np.unique(signs)]])
+            except Exception as ex:
+                geom.append([q, 'EXC %s: %s' % (type(ex).__name__, ex), []])
+        decs = []
+        if cls != 'RotatedToric3DCode':
+            for q in range(min(n, 12)):
+                e = np.zeros(2 * n, dtype='uint8')
+                e[n + q] = 1
+                d = Dec(code, em, 0.1)
+                d._rng = np.random.default_rng(seed)
+                try:
+                    corr = np.asarray(d.decode(code.measure_syndrome(e)))
+                    decs.append([q, [int(i) for i in np.nonzero(corr[:n])[0]], [int(i) for i in np.nonzero(corr[n:] % 2)[0]]])
+                except Exception as ex:
+                    decs.append([q, 'EXC %s: %s' % (type(ex).__name__, ex), []])
+        out['steps'].append({'cls': cls, 'geom': geom, 'decodes': decs})
+    return out
 
 
 if __name__ == '__main__':
